@@ -189,6 +189,9 @@ func (g *vGenSess) cfg(letter string, lite bool, renom bool) string {
 	}
 	if renom {
 		parts = append(parts, "renom=1")
+		if letter == "A" && r.chance(1, 3) {
+			parts = append(parts, "na=1") // the session uses a custom nomination attribute type
+		}
 	}
 	if r.chance(1, 6) {
 		parts = append(parts, fmt.Sprintf("blk=%d", 1+r.intn(30)))
@@ -877,7 +880,7 @@ func (g *vGenSess) prflxSelSupersede() {
 	if g.focus == "C06" {
 		g.pickForms()
 	}
-	g.op("new renom=1,tb=9,u=uA0,p=pA0%s tb=5,u=uB0,p=pB0%s", []string{"", ",ka=0", ",ci=50"}[r.intn(3)], []string{"", ",ucp=1", ",pw=0"}[r.intn(3)])
+	g.op("new renom=1,tb=9,u=uA0,p=pA0%s tb=5,u=uB0,p=pB0%s", []string{"", ",ka=0", ",ci=50", ",na=1", ",na=1,ka=0"}[r.intn(5)], []string{"", ",ucp=1", ",pw=0"}[r.intn(3)])
 	x1, x2, y1, y2 := 16, 32, 176, 192
 	// the variants are cycled, not drawn: (moment of the supersession) x (B's locals: one / two, nominated pair first or last)
 	variant, shape := g.seq%4, (g.seq/4)%3
@@ -967,7 +970,7 @@ func (g *vGenSess) renomPrflx() {
 	if g.focus == "C06" {
 		g.pickForms()
 	}
-	g.op("new renom=1,tb=9,u=uA0,p=pA0%s tb=5,u=uB0,p=pB0%s", []string{"", ",ka=0", ",ci=50"}[r.intn(3)], []string{"", ",ucp=1", ",pw=0"}[r.intn(3)])
+	g.op("new renom=1,tb=9,u=uA0,p=pA0%s tb=5,u=uB0,p=pB0%s", []string{"", ",ka=0", ",ci=50", ",na=1", ",na=1,ka=0"}[r.intn(5)], []string{"", ",ucp=1", ",pw=0"}[r.intn(3)])
 	x1, x2, y := 16, 32, 176
 	p1, p2 := 2130706431, []int{2130706430, 100, 2130706431}[r.intn(3)]
 	g.op("addlocal A 1 0 %d %d -", x1, p1)
@@ -1037,7 +1040,7 @@ func (g *vGenSess) renomExchange() {
 	r := g.r
 	g.hasB = true
 	g.o.stat("sess.renomexchange")
-	g.op("new renom=1,tb=9,u=uA0,p=pA0%s tb=5,u=uB0,p=pB0%s", []string{"", ",ka=0"}[r.intn(2)], []string{"", ",ucp=1", ",pw=0"}[r.intn(3)])
+	g.op("new renom=1,tb=9,u=uA0,p=pA0%s tb=5,u=uB0,p=pB0%s", []string{"", ",ka=0", ",na=1"}[r.intn(3)], []string{"", ",ucp=1", ",pw=0"}[r.intn(3)])
 	x, y1, y2 := 16, 176, 192
 	nat := r.chance(1, 3)
 	if nat {
